@@ -4,8 +4,7 @@ import Pms.Gen.Sq
 import Pms.Gen.Wave
 import Pms.Lemmas.Sq
 import Pms.Lemmas.Wave
-import Mathlib.Analysis.Complex.Trigonometric
-import Mathlib.Analysis.SpecialFunctions.Trigonometric.Basic
+import Pms.Lemmas.SqComplex
 import Mathlib.Analysis.Real.Sqrt
 
 /-! C04 — S(q): property theorems.  The data `Pms.Gen.Sq.*`, `Pms.Gen.Wave.*` is regenerated from the source on every run. -/
@@ -172,35 +171,18 @@ theorem C04_group {κ : Type} [LinearOrder κ] (nq : ℕ) (key : ℕ → κ) (v 
 
 end refinement
 
+/-- the `np.unique` step: when the type ids of frame 0 are exactly 1..K (all in range, every species present) the
+sorted distinct ids computed by the model's `uniqTypes` are [1..K] — the `uniq` under which `C04_refines`/`C04_table`
+are stated — so `typecount` is the composition N_1 … N_K and `len(typenumber)` = K -/
+theorem C04_unique (K N : ℕ) (ty0 : ℕ → ℕ) (hty : ∀ i < N, 1 ≤ ty0 i ∧ ty0 i ≤ K)
+    (hpos : ∀ a, 1 ≤ a ∧ a ≤ K → 0 < countType N ty0 a) :
+    uniqTypes N ty0 = List.range' 1 K ∧ (uniqTypes N ty0).length = K ∧
+    ∀ a, 1 ≤ a ∧ a ≤ K → typecount (uniqTypes N ty0) N ty0 (a - 1) = countType N ty0 a := by
+  have h := uniqTypes_eq ty0 hty hpos
+  refine ⟨h, by rw [h]; simp, fun a ha => ?_⟩
+  rw [h]; exact typecount_range' ty0 ha
+
 /-! ### the density modes over ℂ -/
-
-/-- ρ_a(q) = Σ_{i of species a} exp(−i θ_i),  θ_i = q·r_i -/
-noncomputable def rhoC (N : ℕ) (ty : ℕ → ℕ) (θ : ℕ → ℝ) (a : ℕ) : ℂ :=
-  ∑ i ∈ Finset.range N, if ty i = a then Complex.exp (-(Complex.I * (θ i : ℂ))) else 0
-
-/-- q·r for q = 2π n / L in d dimensions -/
-noncomputable def qdotr (d : ℕ) (n : ℕ → ℤ) (L : ℕ → ℝ) (r : ℕ → ℕ → ℝ) (i : ℕ) : ℝ :=
-  ∑ j ∈ Finset.range d, (2 * Real.pi * (n j : ℝ) / L j) * r i j
-
-theorem rhoC_re (N : ℕ) (ty : ℕ → ℕ) (θ : ℕ → ℝ) (a : ℕ) :
-    (rhoC N ty θ a).re = ∑ i ∈ Finset.range N, if ty i = a then Real.cos (θ i) else 0 := by
-  unfold rhoC
-  rw [Complex.re_sum]
-  refine Finset.sum_congr rfl fun i _ => ?_
-  split
-  · have : -(Complex.I * (θ i : ℂ)) = ((-θ i : ℝ) : ℂ) * Complex.I := by push_cast; ring
-    rw [this, Complex.exp_ofReal_mul_I_re, Real.cos_neg]
-  · simp
-
-theorem rhoC_im (N : ℕ) (ty : ℕ → ℕ) (θ : ℕ → ℝ) (a : ℕ) :
-    (rhoC N ty θ a).im = ∑ i ∈ Finset.range N, if ty i = a then -Real.sin (θ i) else 0 := by
-  unfold rhoC
-  rw [Complex.im_sum]
-  refine Finset.sum_congr rfl fun i _ => ?_
-  split
-  · have : -(Complex.I * (θ i : ℂ)) = ((-θ i : ℝ) : ℂ) * Complex.I := by push_cast; ring
-    rw [this, Complex.exp_ofReal_mul_I_im, Real.sin_neg]
-  · simp
 
 /-- **the pair form is the property's formula**: with c = cos(q·r), s = sin(q·r) the model's Re(ρ_a · conj ρ_b) is
 Re[ρ_a(q) · ρ_b(−q)] with ρ defined by the complex exponential (ρ_b(−q) has the phases −θ) -/
